@@ -17,18 +17,20 @@ RULE = ('2-3 processes on one dir or file archive, each performing one operation
         '(_lsdir/_hasinput/_lookup/exists; file: open for reading) of a reader is a scheduling point; schedules: seeded random, plus writer-first / reader-first / '
         'alternating; scenarios writer||writer (distinct keys), writer||reader, overwrite||reader, delete||reader, writer||opener; thorough adds system-call-level '
         'reader gates (monitor only); sqlite: free-running writers and readers, monitor only; non-trivial = schedule with at least one context switch')
-NSCHED = {'quick': 256, 'thorough': 3072}
+NSCHED = {'quick': 320, 'thorough': 3840}
 KEYS = ['a', 'b', 'k1', 7, 'p-q']
 VALS = [1, 'v', (2, 3), None, 2.5]
-SCEN = ['ww', 'ww', 'wr-other', 'wr-other', 'wr-list', 'wr-list', 'wr-list', 'over-r', 'over-list', 'del-r', 'del-list', 'www', 'f-wr', 'f-wo', 'f-wo', 'f-wr']
+SCEN = ['ww', 'ww', 'wr-other', 'wr-other', 'wr-list', 'wr-list', 'wr-list', 'over-r', 'over-list', 'del-r', 'del-list', 'www', 'f-wr', 'f-wo', 'f-wo', 'f-wr',
+        'q-ww', 'q-over-r', 'q-wr-list', 'q-upd-r']
 
 
 def gen(tier, idx):
     r = rng('sched', tier, idx)
     sc = SCEN[idx % len(SCEN)]
-    kind = 'file' if sc.startswith('f-') else 'dir'
+    kind = 'file' if sc.startswith('f-') else ('sql' if sc.startswith('q-') else 'dir')
     cfg = dict(kind=kind, codec='pickle', opts={})
-    keys = list(KEYS); r.shuffle(keys)
+    keys = list(KEYS if kind != 'sql' else ['a', 'b', 'k1', 7, 'c']); r.shuffle(keys)
+    VALS = [1, 'v', None, 2.5, b'by'] if kind == 'sql' else globals()['VALS']
     nprior = r.choice([1, 2, 3])
     prior = [(k, r.choice(VALS)) for k in keys[:nprior]]
     present = [k for k, _ in prior]; absent = keys[nprior:]
@@ -45,9 +47,15 @@ def gen(tier, idx):
     elif sc == 'del-list': k = present[0]; procs = [('writer', [r.choice(['delitem', 'pop']), k]), ('reader', listing())]
     elif sc == 'f-wr': procs = [('writer', ['setitem', r.choice(keys), nv()]), ('reader', [r.choice(['asdict', 'getitem', 'len']), present[0]][:2])]
     elif sc == 'f-wo': procs = [('writer', ['setitem', absent[0], nv()]), ('writer', ['open', False])]
+    elif sc == 'q-ww': procs = [('writer', ['setitem', absent[0], nv()]), ('writer', ['setitem', absent[1], nv()])]
+    elif sc == 'q-over-r': k = present[0]; procs = [('writer', ['setitem', k, nv(dict(prior)[k])]), ('reader', [r.choice(['getitem', 'contains', 'get', 'asdict']), k])]
+    elif sc == 'q-wr-list': procs = [('writer', ['setitem', absent[0], nv()]), ('reader', [r.choice(['keys', 'asdict', 'items', 'len'])])]
+    elif sc == 'q-upd-r': k = present[0]; procs = [('writer', ['update', [(k, nv(dict(prior)[k])), (absent[0], nv())]]), ('reader', [r.choice(['getitem', 'get', 'asdict']), k])]
+    if sc == 'q-over-r' and procs[1][1][0] == 'asdict': procs[1] = ('reader', ['asdict'])
+    if sc == 'q-upd-r' and procs[1][1][0] == 'asdict': procs[1] = ('reader', ['asdict'])
     if sc == 'f-wr' and procs[1][1][0] in ('asdict', 'len'): procs[1] = ('reader', [procs[1][1][0]])
     policy = r.choice(['random', 'random', 'random', 'first', 'second', 'alternate', 'after-rename', 'after-rename'])
-    if sc in ('f-wr', 'wr-other', 'over-r', 'del-r'):
+    if sc in ('f-wr', 'wr-other', 'over-r', 'del-r', 'q-over-r', 'q-upd-r'):
         # the reader takes one step: put it at every position of the writer's run in turn (exhaustive for these scenarios)
         policy = 'pos:%d' % ((idx // len(SCEN)) % 16)
     # every 8th dir schedule gates the readers at system-call level (scandir / stat / lstat / open) instead of helper level:
@@ -165,6 +173,8 @@ def monitor(tr):
         if role != 'writer': continue
         if op[0] == 'setitem': new[kcanon(op[1])] = cvj(op[2]); stored[kcanon(op[1])].add(cvj(op[2])); touched.add(kcanon(op[1]))
         elif op[0] in ('delitem', 'pop'): new.pop(kcanon(op[1]), None); touched.add(kcanon(op[1])); removed.add(kcanon(op[1]))
+        elif op[0] == 'update':
+            for a_, b_ in op[1]: new[kcanon(a_)] = cvj(b_); stored[kcanon(a_)].add(cvj(b_)); touched.add(kcanon(a_))
     viol = []
     def bad(who, what, msg):
         nsw = len([1 for a, b in zip(tr['sched'], tr['sched'][1:]) if a[0] != b[0]])
@@ -228,7 +238,7 @@ def explore(prop, tier):
     errors = [t['err'] for t in trs if t['err']]
     trs = [t for t in trs if not t['err']]
     import run_sched_model
-    divs = run_sched_model.compare([t for t in trs if not t['case'].get('fine')])
+    divs = run_sched_model.compare([t for t in trs if not t['case'].get('fine') and t['case']['cfg']['kind'] != 'sql'])
     viols = []
     tags = collections.Counter(); nontriv = 0
     for tr in trs:
@@ -267,7 +277,7 @@ def replay(prop, obj):
     tr = run_schedule(case)
     if tr['err']: raise NoVerdict(tr['err'])
     import run_sched_model
-    divs = run_sched_model.compare([tr]) if not tr['case'].get('fine') else []
+    divs = run_sched_model.compare([tr]) if not tr['case'].get('fine') and tr['case']['cfg']['kind'] != 'sql' else []
     return dict(violations=[dict(prop='C14', sig=v['sig'], msg=v['msg'], i=0) for v in monitor(tr)], divergence=divs[0]['detail'] if divs else None)
 
 
